@@ -335,8 +335,13 @@ fn codepoints_from_class_positive(ct: CharacterClassType) -> CodePointSet {
 }
 
 /// Returns code points for a character class, optionally inverted.
-fn codepoints_from_class(ct: CharacterClassType, positive: bool) -> CodePointSet {
-    let cps = codepoints_from_class_positive(ct);
+/// If icase is set, the positive set is closed under case equivalence before it is inverted,
+/// so that the complement is the complement of everything the class matches.
+fn codepoints_from_class(ct: CharacterClassType, positive: bool, icase: bool) -> CodePointSet {
+    let mut cps = codepoints_from_class_positive(ct);
+    if icase {
+        cps = unicode::add_icase_code_points(cps);
+    }
     if positive { cps } else { cps.inverted() }
 }
 
@@ -354,14 +359,15 @@ fn make_bracket_class(ct: CharacterClassType, positive: bool, icase: bool) -> ir
     ir::Node::Bracket(BracketContents { invert: false, cps })
 }
 
-fn add_class_atom(bc: &mut BracketContents, atom: ClassAtom) {
+fn add_class_atom(bc: &mut BracketContents, atom: ClassAtom, icase: bool) {
     match atom {
         ClassAtom::CodePoint(c) => bc.cps.add_one(c),
         ClassAtom::CharacterClass {
             class_type,
             positive,
         } => {
-            bc.cps.add_set(codepoints_from_class(class_type, positive));
+            bc.cps
+                .add_set(codepoints_from_class(class_type, positive, icase));
         }
         ClassAtom::Range { iv, negate } => {
             if negate {
@@ -837,6 +843,9 @@ where
     fn consume_bracket(&mut self) -> Result<ir::Node, Error> {
         self.consume('[');
         let invert = self.try_consume('^');
+        // In Unicode mode a negated class escape such as \W denotes the complement of
+        // everything \w matches case-insensitively.
+        let icase = self.flags.icase && self.flags.unicode;
         let mut result = BracketContents {
             invert,
             cps: CodePointSet::default(),
@@ -864,14 +873,14 @@ where
 
             // Check for a dash; we may have a range.
             if !self.try_consume('-') {
-                add_class_atom(&mut result, first);
+                add_class_atom(&mut result, first, icase);
                 continue;
             }
 
             let Some(second) = self.try_consume_bracket_class_atom()? else {
                 // No second atom. For example: [a-].
-                add_class_atom(&mut result, first);
-                add_class_atom(&mut result, ClassAtom::CodePoint(u32::from('-')));
+                add_class_atom(&mut result, first, icase);
+                add_class_atom(&mut result, ClassAtom::CodePoint(u32::from('-')), icase);
                 continue;
             };
 
@@ -896,9 +905,9 @@ where
             }
 
             // If it does not match a range treat as any match single characters.
-            add_class_atom(&mut result, first);
-            add_class_atom(&mut result, ClassAtom::CodePoint(u32::from('-')));
-            add_class_atom(&mut result, second);
+            add_class_atom(&mut result, first, icase);
+            add_class_atom(&mut result, ClassAtom::CodePoint(u32::from('-')), icase);
+            add_class_atom(&mut result, second, icase);
         }
     }
 
@@ -1242,32 +1251,32 @@ where
                     // CharacterClassEscape :: d
                     0x64 /* d */ => {
                         self.consume('d');
-                        Ok(CharacterClassEscape(codepoints_from_class(CharacterClassType::Digits, true)))
+                        Ok(CharacterClassEscape(codepoints_from_class(CharacterClassType::Digits, true, false)))
                     }
                     // CharacterClassEscape :: D
                     0x44 /* D */ => {
                         self.consume('D');
-                        Ok(CharacterClassEscape(codepoints_from_class(CharacterClassType::Digits, false)))
+                        Ok(CharacterClassEscape(codepoints_from_class(CharacterClassType::Digits, false, false)))
                     }
                     // CharacterClassEscape :: s
                     0x73 /* s */ => {
                         self.consume('s');
-                        Ok(CharacterClassEscape(codepoints_from_class(CharacterClassType::Spaces, true)))
+                        Ok(CharacterClassEscape(codepoints_from_class(CharacterClassType::Spaces, true, false)))
                     }
                     // CharacterClassEscape :: S
                     0x53 /* S */ => {
                         self.consume('S');
-                        Ok(CharacterClassEscape(codepoints_from_class(CharacterClassType::Spaces, false)))
+                        Ok(CharacterClassEscape(codepoints_from_class(CharacterClassType::Spaces, false, false)))
                     }
                     // CharacterClassEscape :: w
                     0x77 /* w */ => {
                         self.consume('w');
-                        Ok(CharacterClassEscape(codepoints_from_class(CharacterClassType::Words, true)))
+                        Ok(CharacterClassEscape(codepoints_from_class(CharacterClassType::Words, true, false)))
                     }
                     // CharacterClassEscape :: W
                     0x57 /* W */ => {
                         self.consume('W');
-                        Ok(CharacterClassEscape(codepoints_from_class(CharacterClassType::Words, false)))
+                        Ok(CharacterClassEscape(codepoints_from_class(CharacterClassType::Words, false, false)))
                     }
                     // CharacterClassEscape :: [+UnicodeMode] p{ UnicodePropertyValueExpression }
                     0x70 /* p */ => {
